@@ -426,6 +426,51 @@ func RunC20(c *Ctx) {
 			c.Sample("position", buf, fmt.Sprintf("%d pairs", len(pairs)))
 		}
 	}
+	// many-line texts: every position's line/column, and Position for a sample of pairs (line-table search code)
+	maxLines := c.Pick(400, 3000)
+	for L := 1 + c.Shard; L <= maxLines; L += ns {
+		var sb strings.Builder
+		for k := 0; k < L; k++ {
+			for m := 0; m < (k*7+L)%6; m++ {
+				sb.WriteByte(byte('a' + (k+m)%26))
+			}
+			if k < L-1 || L%2 == 0 {
+				sb.WriteByte('\n')
+			}
+		}
+		buf := sb.String()
+		c.Journal("position", buf)
+		var bad string
+		pv, _ := callSUT(func() {
+			f := &token.File{FilePath: FilePath, Buffer: buf}
+			line, lineStart := 0, 0
+			for p := 0; p <= len(buf); p++ {
+				l, col := f.ResolvePos(token.Pos(p))
+				if l != line || col != p-lineStart {
+					bad = fmt.Sprintf("text with %d lines, pos=%d: ResolvePos = (%d,%d), want (%d,%d)", L, p, l, col, line, p-lineStart)
+					return
+				}
+				if p < len(buf) && buf[p] == '\n' {
+					line++
+					lineStart = p + 1
+				}
+			}
+		})
+		c.Eval()
+		c.Count("long_texts", 1)
+		if pv != nil {
+			c.Violate("c20:resolvepos-panic", "position", buf, fmt.Sprintf("text with %d lines: %v", L, pv))
+		} else if bad != "" {
+			c.Violate("c20:resolvepos", "position", buf, bad)
+		}
+		var pairs [][2]int
+		for k := 0; k < 16; k++ {
+			p := r.IntN(len(buf) + 1)
+			e := p + r.IntN(min(len(buf)+1-p, 40))
+			pairs = append(pairs, [2]int{p, e})
+		}
+		CheckC20Text(c, buf, pairs)
+	}
 	// every error produced by error workloads
 	errs := 0
 	errorWorkload(c, c.Pick(30_000, 600_000), func(entry, input string) {
